@@ -224,6 +224,9 @@ def gen_scenario(seed, focus="C20"):
             last_sync = op
         elif what == "repeat":
             op = copy.deepcopy(last_sync)
+            if ch.chance(lab + ".flipvia", 0.3):
+                # the same invocation through the other route: a command-line run is a new process, an API call is not
+                op["via"] = "api" if op.get("via") == "cli" else "cli"
         elif what == "alternate":
             others = [k for k in last_sync["targets"] if k != last_sync["truth"]]
             op = copy.deepcopy(last_sync)
@@ -334,9 +337,15 @@ class Later(object):
 
 
 def sp_op(proj, ch, lab, _files):
-    names = ch.sample(lab + ".names", render.WORDS, 9)
+    # one input/output module pair per scenario: later sync_properties calls start from the same bytes (restored by the
+    # simulated user), with different pairs
+    if proj is not None and getattr(proj, "sp_names", None) is None:
+        proj.sp_names = ch.sample("sp.names", render.WORDS, 9)
+        proj.sp_types = lab
+    names = proj.sp_names if proj is not None else ch.sample(lab + ".names", render.WORDS, 9)
+    tlab = proj.sp_types if proj is not None else lab
     cattr, marg, farg, kwarg, oconst, oarg, oattr, omarg, okw = names
-    okw2 = okw if ch.chance(lab + ".samekw", 0.5) else okw + "2"
+    okw2 = okw if Chooser(ch.seed).fork("sp-kw-" + tlab).chance("samekw", 0.5) else okw + "2"
     typs = ["Literal['a', 'b']", "Optional[int]", "int", "Literal['x']", "Optional[str]", "float"]
 
     def td(l):
@@ -344,16 +353,24 @@ def sp_op(proj, ch, lab, _files):
         d = {"Literal['a', 'b']": "'a'", "Optional[int]": "None", "int": "5", "Literal['x']": "'x'", "Optional[str]": "'s'", "float": "1.5"}[t]
         return t, d
 
-    ctyp, cdef = td(lab + ".ct")
-    mtyp, mdef = td(lab + ".mt")
-    ftyp, _ = td(lab + ".ft")
-    kwtyp, kwdef = td(lab + ".kt")
+    tch = Chooser(ch.seed).fork("sp-types-" + tlab)  # the same module text for every sync_properties op of the scenario
+    typs_pick = lambda l: tch.choice(l, typs)
+
+    def td(l):  # noqa: F811
+        t = typs_pick(l)
+        d = {"Literal['a', 'b']": "'a'", "Optional[int]": "None", "int": "5", "Literal['x']": "'x'", "Optional[str]": "'s'", "float": "1.5"}[t]
+        return t, d
+
+    ctyp, cdef = td("ct")
+    mtyp, mdef = td("mt")
+    ftyp, _ = td("ft")
+    kwtyp, kwdef = td("kt")
     evalname = "CHOICES"
     consts = "%s = ('p', 'q', 'r')\nmodule_attr: %s = %s" % (evalname, ctyp, cdef)
     inp = SP_INPUT.format(consts=consts, cattr=cattr, ctyp=ctyp, cdef=cdef, marg=marg, mtyp=mtyp, mdef=mdef, farg=farg, ftyp=ftyp,
                           kwarg=kwarg, kwtyp=kwtyp, kwdef=kwdef)
     outp = SP_OUTPUT.format(oconst=oconst, oarg=oarg, oattr=oattr, omarg=omarg, okw=okw, okw2=okw2)
-    if not ch.chance(lab + ".nl", 0.8):
+    if not tch.chance("nl", 0.8):
         outp = outp.rstrip("\n")
     in_addrs = ["Source." + cattr, "Source.method." + marg, "source_fn." + farg, "source_fn." + kwarg, "module_attr"]
     out_addrs = [oconst, "Target." + oattr, "Target.method." + omarg, "Target.method." + okw, "target_fn." + oarg, "target_fn." + okw2,
